@@ -98,6 +98,71 @@ prop(
     min_counters={"quick": {"operator_pair_trees": 3000, "statements_select": 500}, "thorough": {"operator_pair_trees": 3000}},
 )
 
+prop(
+    "C01",
+    title="Everything written is read back after close and reopen",
+    technique="close-point runtime monitor on an instrumented medium (live + durable-at-flush images), model-checked observations, every history position closed in all three modes",
+    rule="directed scenarios (empty-string cells, shared strings, >64 KiB strings, integer boundaries, 3 package types, each of the 26 code pages "
+         "with strings from its repertoire, multi-byte summary strings) and seeded random histories (create/drop table, insert, update, delete, "
+         "streams, 20 summary setters/clearers, code-page changes); a close point after EVERY operation, each history run 3 times with mode(i) = "
+         "(i+pass) mod 3; distinct = fingerprint of (operation kinds, schema shapes, value classes, close modes); non-trivial = at least one successful mutation",
+    level_text="Every close point compares the full public observation before closing with the observation after reopening the bytes (flush: the "
+               "image durable when flush() returned Ok AND the live image; into_inner / drop: the medium afterwards), then re-saves without change "
+               "and compares again; the observation is also compared with the reference model so that 'before' is really what was written.",
+    level_note="Strings are drawn only from the chosen code page's repertoire (oracle-computed). Medium semantics: 'durable' = copy taken when flush() reaches the medium.",
+    assumptions=[TRUST_CFB, TRUST_ENC, TRUST_MODEL],
+    design_ref="3/C01",
+    min_counters={"quick": {"close_points_Flush": 500, "close_points_IntoInner": 500, "close_points_Drop": 500, "directed_scenarios": 30},
+                  "thorough": {"close_points_Flush": 5000, "directed_scenarios": 30}},
+)
+
+prop(
+    "C03",
+    title="Insert, update, delete and select follow the relational model",
+    technique="reference-model runtime monitor after every operation (whole-observation frame condition) + select oracle; bounded-exhaustive operation words and seeded random histories",
+    rule="all words up to depth 4 (quick) / 5 (thorough) over a 14-letter alphabet (single/batch/duplicate inserts, value and KEY-column updates to fresh / "
+         "colliding / order-changing values, deletes by key / value / all, reopen, drop+recreate) from a base image; random 50-200 operation histories over 1-4 "
+         "tables with composite / string / nullable keys and reopen points; random WHERE programs + projections against the model; distinct = the word resp. "
+         "history fingerprint; non-trivial = at least one successful mutation",
+    level_text="After every call the complete public observation (all tables incl. catalog frame, streams, summary) is compared with an in-memory relational "
+               "model; a structural rejection by the model against a library Ok is a violation; selects are compared row by row in order, with Rows::len, "
+               "Row::len, Row[i], Row[name] consistency.",
+    level_note="Conditions whose truth the documentation leaves open (overflow, cross-type ordering, '' vs null cells) are skipped and counted.",
+    assumptions=[TRUST_MODEL, TRUST_CFB],
+    design_ref="3/C03",
+    min_counters={"quick": {"alphabet_sequences": 40000, "selects_checked": 20000, "call_ok_update_where": 1000}, "thorough": {"alphabet_sequences": 500000}},
+)
+
+prop(
+    "C05",
+    title="Stored tables always keep unique, ordered keys and valid cells",
+    technique="state-invariant runtime monitor (unique + ascending keys, reference validity of every cell) after every operation and every reopen; key-affecting operation words enumerated",
+    rule="all words up to depth 5 (quick) / 6 (thorough) over the 7 key-affecting letters; directed null-vs-empty-string and composite-key scenarios; random histories "
+         "weighted to key-column updates (55%), near-duplicate batches and delete/insert cycles, with reopen points; distinct = word / history fingerprint; non-trivial = a successful mutation",
+    level_text="The invariant is evaluated on every table (catalog tables included) in every observed state, with the harness's own reference validity predicate "
+               "(not the library's is_valid_value), and again after reopening.",
+    level_note="Order is checked pairwise with the documented order (ints numeric, strings by scalar value); null vs non-null placement is not constrained.",
+    assumptions=[TRUST_MODEL],
+    design_ref="3/C05",
+    min_counters={"quick": {"alphabet_sequences": 19000}, "thorough": {"alphabet_sequences": 130000}},
+)
+
+prop(
+    "C08",
+    title="Saved files are well-formed MSI databases with exact string accounting",
+    technique="offline checker over recorded saved images: independent MSI-format decoder + reference-count conservation (refcount == referring cells) + leftover-token search, at every prefix of every history",
+    rule="the saved image after every operation (flush-and-snapshot lane) and after every close (into_inner/drop lane) of directed scenarios (slot reuse, last reference "
+         "released, string shared by two tables and the catalog, dropped table with rows, empty strings; thorough: 65,540 references to one string) and random histories; "
+         "distinct = history fingerprint; non-trivial = a successful mutation was saved",
+    level_text="Every saved image is parsed by harness code written from the format description (only the cfb container crate is shared) and compared cell by cell with "
+               "what the API reports; conservation: each pool entry's refcount equals the number of referring cells in all tables, dead entries are empty, no live empty "
+               "entry, lengths sum to _StringData, unique tokens of deleted data are absent from _StringData.",
+    level_note="Unique tokens are embedded in every generated string so leftovers are unambiguous.",
+    assumptions=[TRUST_CFB, TRUST_CODEC, TRUST_ENC],
+    design_ref="3/C08",
+    min_counters={"quick": {"saved_images_decoded": 5000}, "thorough": {"saved_images_decoded": 100000}},
+)
+
 ALL_IDS = ["C%02d" % i for i in range(1, 21)]
 
 
